@@ -269,7 +269,10 @@ def typed_consistently(a, b):
     return True
 
 
-def build_fs(spec):
+FALSY = {"x": 0, "y": ""}        # atomic values that are falsy in Python (bar level 0, an empty text)
+
+
+def build_fs(spec, falsy=False):
     from pyformlang.fcfg import FeatureStructure
     refs = {}
 
@@ -283,7 +286,7 @@ def build_fs(spec):
             if s[1] not in refs:
                 refs[s[1]] = FeatureStructure()
             return refs[s[1]]
-        return FeatureStructure(s)
+        return FeatureStructure(FALSY.get(s, s) if falsy else s)
     return build(spec)
 
 
@@ -437,6 +440,33 @@ def shared_struct_fcfg(rng):
         prods.append([E, {"f": {"n": a1, "p": p2}, "g": {"n": a1, "p": p2}}, [["T", t2], ["T", t2]]])
     rng.shuffle(prods)
     return {"kind": "fcfg", "prods": prods, "via": rng.choice(["text", "api", "api"])}
+
+
+def long_body_fcfg(rng):
+    """a body of twelve to fourteen symbols with categories at positions 2-9 AND at positions 10 and later that must
+    agree (and a feature-free variant): positions with two digits"""
+    n = rng.randint(12, 14)
+    body = []
+    for i in range(n):
+        if i in (2, 5, 10, n - 1) or rng.random() < 0.15:
+            body.append(["V", rng.choice(["A", "B"]), {"f": "?a"} if i in (2, 10) else ({} if rng.random() < 0.5 else {"f": "?a"})])
+        else:
+            body.append(["T", rng.choice("ab")])
+    free = rng.random() < 0.3
+    if free:
+        body = [[x[0], x[1], {}] if x[0] == "V" else x for x in body]
+    fa_, fb_ = ({}, {}) if free else ({"f": "x"}, {"f": "y"})
+    prods = [["S", {}, body], ["A", fa_, [["T", "a"]]], ["B", fb_, [["T", "b"]]], ["A", fb_ if not free else {}, [["T", "b"], ["T", "b"]]]]
+    words = []
+    for pick in range(4):
+        w = []
+        for x in body:
+            if x[0] == "T":
+                w.append(x[1])
+            else:
+                w.extend({"A": [["a"], ["b", "b"]], "B": [["b"], ["b"]]}[x[1]][(pick >> (len(w) % 2)) & 1])
+        words.append(w)
+    return {"kind": "fcfg", "prods": prods, "via": rng.choice(["text", "api"]), "long_words": words}
 
 
 def bars_fcfg(rng):
@@ -648,7 +678,7 @@ def plan(tier, rng, sl, nslices, stats):
     cfg = TIERS[tier]
     for _ in range(cfg["unify"]):
         a, b = rand_spec(rng), rand_spec(rng)
-        yield {"kind": "unify", "a": a, "b": b}
+        yield {"kind": "unify", "a": a, "b": b, "falsy": rng.random() < 0.15}
     for i in range(cfg["fcfg"]):
         c = [rand_fcfg, nested_fcfg, agreement_fcfg, epsilon_fcfg, rand_fcfg][i % 5](rng)
         if i % 10 == 9:
@@ -656,6 +686,9 @@ def plan(tier, rng, sl, nslices, stats):
             continue
         if i % 10 == 4:
             yield shared_struct_fcfg(rng)
+            continue
+        if i % 100 == 57:
+            yield long_body_fcfg(rng)
             continue
         r_ = rng.random()
         if r_ < 0.15:
@@ -679,12 +712,13 @@ def run_case(c, stats):
             stats.cls("unify:discarded")
             return False
         stats.cls("unify")
-        A, B = build_fs(c["a"]), build_fs(c["b"])
+        fz = bool(c.get("falsy"))
+        A, B = build_fs(c["a"], fz), build_fs(c["b"], fz)
         call(A.unify, B)
-        A2, B2 = build_fs(c["a"]), build_fs(c["b"])
+        A2, B2 = build_fs(c["a"], fz), build_fs(c["b"], fz)
         call(B2.unify, A2)
-        A3 = build_fs(c["a"])
-        call(A3.unify, build_fs(c["a"]))        # idempotence
+        A3 = build_fs(c["a"], fz)
+        call(A3.unify, build_fs(c["a"], fz))        # idempotence
         return bool(set(c["a"]) & set(c["b"]))
     tags = case_tags(c)
     stats.cls("fcfg:" + c["via"])
@@ -719,5 +753,9 @@ def run_case(c, stats):
     with core.case(c, tags):
         for w in itertools.chain.from_iterable(itertools.product("ab", repeat=k) for k in range(N + 1)):
             ok, r = call(g.contains, values.word_form(w, len(w) + len(c["prods"])))
+            nt = nt or (ok and bool(r))
+        for w in c.get("long_words", ()):
+            ok, r = call(g.contains, list(w))              # long sentences (bodies of a dozen symbols)
+            call(g.contains, list(w[:-1]))
             nt = nt or (ok and bool(r))
     return nt
